@@ -468,7 +468,9 @@ where
             break;
         }
     }
-    if tie && !floor.is_odd() {
+    if tie && (boundary != I::ZERO || !floor.is_odd()) {
+        // all digits matched the tie point so far: if the tie point still has
+        // digits left, the value is below it, otherwise it is an exact tie
         return Some(floor);
     }
     let next_up = floor.checked_add(one)?;
